@@ -16,6 +16,7 @@ import SerfProofs.Lemmas.EventBuf
 import SerfModel.Model.QueryHandle
 import SerfModel.Gen.BufLocks
 import SerfModel.Gen.BufHandler
+import SerfModel.Gen.InternalQueries
 import SerfProofs.Lemmas.BufHandlerIR
 namespace SerfProofs.C08
 open SerfModel SerfModel.Atomic SerfModel.EventBuf SerfModel.QueryHandle SerfProofs.EventBuf
@@ -220,5 +221,115 @@ theorem C08_handler_body_is_model (b : Buf Nat) (q : QueryMsg) :
     r.1.buf = m.1 ∧ r.2 = m.2.rebroadcast ∧ r.1.delivered = m.2.delivered ∧ r.1.acked = m.2.acked := by
   rw [C08_gen_handler_body]
   exact SerfProofs.BufHandlerIR.queryBody_is_handleQuery re cfg b q
+
+/-! ### Internal-query routing, over every name, on the regenerated shape of
+`serfQueries.stream` and of the switch of `serfQueries.handleQuery`. -/
+section routing
+open SerfModel.Gen
+
+/-- **Source tie (regenerated on every run).** The `inCh` arm of `stream` tests
+`e.(*Query)` and `strings.HasPrefix(q.Name, InternalQueryPrefix)`, its internal branch
+is exactly `go s.handleQuery(q)` (nothing is sent on `outCh`), its other branch forwards;
+`handleQuery` switches on the name without the prefix and its default branch only logs;
+the prefix constant is the model's `internalPrefix`. -/
+theorem C08_gen_routing_shape :
+    shapesUnderstood InternalQueries.stream InternalQueries.switch = true
+    ∧ InternalQueries.stream.prefixConst = internalPrefix := by decide
+
+/-- The six internal queries and the handler each one reaches. -/
+theorem C08_gen_routing_cases : InternalQueries.switch.cases =
+    [("ping", ""), ("conflict", "handleConflict"), ("install-key", "handleInstallKey"),
+     ("use-key", "handleUseKey"), ("remove-key", "handleRemoveKey"), ("list-keys", "handleListKeys")] := by decide
+
+/-- **Every name: forwarded to the application ⇔ not (a query whose name has the
+internal prefix).**  In particular an UNKNOWN name with the prefix is never
+forwarded, and no name without the prefix is ever swallowed. -/
+theorem C08_route_app_iff (isQuery : Bool) (name : String) :
+    route InternalQueries.stream InternalQueries.switch isQuery name = .app
+      ↔ ¬ (isQuery = true ∧ hasPrefix internalPrefix name = true) := by
+  have hs := C08_gen_routing_shape
+  unfold route
+  rw [hs.1, hs.2]
+  by_cases h : (isQuery && hasPrefix internalPrefix name) = true
+  · simp only [Bool.not_true, Bool.false_eq_true, ↓reduceIte, h]
+    have h' : isQuery = true ∧ hasPrefix internalPrefix name = true := by simpa using h
+    constructor
+    · intro hr; split at hr <;> cases hr
+    · intro hn; exact absurd h' hn
+  · simp only [Bool.not_true, Bool.false_eq_true, ↓reduceIte, h, true_iff]
+    intro h'
+    exact h (by simp [h'.1, h'.2])
+
+/-- **A query with the internal prefix is consumed**: it reaches one of the six
+handlers when the rest of its name is one of the six constants, and is dropped
+(logged as unhandled) otherwise — for every name. -/
+theorem C08_internal_consumed (name : String) (h : hasPrefix internalPrefix name = true) :
+    (∃ hd, route InternalQueries.stream InternalQueries.switch true name = .handler hd
+        ∧ (String.ofList (name.toList.drop internalPrefix.length), hd) ∈ InternalQueries.switch.cases)
+    ∨ (route InternalQueries.stream InternalQueries.switch true name = .dropped
+        ∧ ∀ p ∈ InternalQueries.switch.cases, p.1 ≠ String.ofList (name.toList.drop internalPrefix.length)) := by
+  have hs := C08_gen_routing_shape
+  unfold route
+  rw [hs.1, hs.2]
+  simp only [Bool.not_true, Bool.false_eq_true, ↓reduceIte, h, Bool.true_and]
+  cases hl : alookup InternalQueries.switch.cases (String.ofList (name.toList.drop internalPrefix.length)) with
+  | some hd =>
+    left
+    refine ⟨hd, rfl, ?_⟩
+    unfold alookup at hl
+    cases hf : List.find? (fun p => p.1 == String.ofList (name.toList.drop internalPrefix.length)) InternalQueries.switch.cases with
+    | none => simp [hf] at hl
+    | some p =>
+      simp only [hf, Option.map_some, Option.some.injEq] at hl
+      have hm := List.mem_of_find?_eq_some hf
+      have hp := List.find?_some hf
+      have : p.1 = String.ofList (name.toList.drop internalPrefix.length) := by simpa using hp
+      rw [← this, ← hl]
+      exact hm
+  | none =>
+    right
+    refine ⟨rfl, ?_⟩
+    intro p hp heq
+    unfold alookup at hl
+    have : List.find? (fun p => p.1 == String.ofList (name.toList.drop internalPrefix.length)) InternalQueries.switch.cases = none := by
+      cases hf : List.find? (fun p => p.1 == String.ofList (name.toList.drop internalPrefix.length)) InternalQueries.switch.cases with
+      | none => rfl
+      | some q => simp [hf] at hl
+    have := List.find?_eq_none.1 this p hp
+    simp [heq] at this
+
+-- non-vacuity / examples: a known internal query, an unknown one, the bare prefix, near misses
+example : route InternalQueries.stream InternalQueries.switch true "_serf_conflict" = .handler "handleConflict" := by decide
+example : route InternalQueries.stream InternalQueries.switch true "_serf_ping" = .handler "" := by decide
+example : route InternalQueries.stream InternalQueries.switch true "_serf_zz" = .dropped := by decide
+example : route InternalQueries.stream InternalQueries.switch true "_serf_" = .dropped := by decide
+example : route InternalQueries.stream InternalQueries.switch true "_serf" = .app := by decide
+example : route InternalQueries.stream InternalQueries.switch true "x_serf_ping" = .app := by decide
+example : route InternalQueries.stream InternalQueries.switch false "_serf_ping" = .app := by decide
+
+/-- What the application sees of the node's event channel is exactly what the
+regenerated routing forwards (`forwardedToApp` is `route … = .app`, event by event). -/
+theorem C08_forwarded_is_route (evs : List AppEv) :
+    forwardedToApp evs = evs.filter (fun e => match e with
+      | .query _ name => route InternalQueries.stream InternalQueries.switch true name == .app
+      | .other _ => route InternalQueries.stream InternalQueries.switch false "" == .app) := by
+  unfold forwardedToApp
+  apply List.filter_congr
+  intro e _
+  cases e with
+  | query lt name =>
+    by_cases h : hasPrefix internalPrefix name = true
+    · have : route InternalQueries.stream InternalQueries.switch true name ≠ .app := by
+        rw [Ne, C08_route_app_iff]; simp [h]
+      simp [AppEv.isInternalQuery, h, this]
+    · have : route InternalQueries.stream InternalQueries.switch true name = .app := by
+        rw [C08_route_app_iff]; simp [h]
+      simp [AppEv.isInternalQuery, h, this]
+  | other t =>
+    have : route InternalQueries.stream InternalQueries.switch false "" = .app := by
+      rw [C08_route_app_iff]; simp
+    simp [AppEv.isInternalQuery, this]
+
+end routing
 
 end SerfProofs.C08
